@@ -222,7 +222,13 @@ def drive_chunk(cases):
 def describe(case):
     st = case['start']
     s = 'from_seed(%s)' % st['seed'] if st['kind'] == 'seed' else 'HDKey(key=%s, chain=%s)' % (st['k'], st['c'])
-    for op in case['pre'] + [case['call']]:
+    ops = case['pre'] + [case['call']]
+    if len(ops) > 14:
+        ops = ops[:4] + [{'op': 'skip', 'n': len(ops) - 12}] + ops[-8:]
+    for op in ops:
+        if op['op'] == 'skip':
+            s += '. ...%d more calls... ' % op['n']
+            continue
         if op['op'] == 'public':
             s += '.public()'
         elif op['op'] == 'reimport':
@@ -416,6 +422,8 @@ def run(replay=None):
             for e in sp:
                 add(st, [], P([e]), ('special', st['kind'], e[-1] == "'"))
                 add(st, [], P([e, '0']), ('special', st['kind'], e[-1] == "'", 'child'))
+                add(st, [], P([e, "0'"]), ('special', st['kind'], e[-1] == "'", 'hardened-child'))
+                add(st, [P([e])], CPRIV(1, True), ('special', st['kind'], e[-1] == "'", 'hardened-child-api'))
                 if e[-1] != "'":
                     add(st, [PUBLIC], P([e]), ('special-pub', st['kind']))
                     add(st, [PUBLIC], P([e, '1']), ('special-pub', st['kind'], 'child'))
@@ -465,6 +473,59 @@ def run(replay=None):
                     ('deep', 'hardened-from-public'))
                 add(st, pre + ([PUBLIC] if split == depth else []), CPUB(2 ** 31 + rng.randrange(2 ** 31), *anyvar(st)),
                     ('deep', 'child_public-hardened-index'))
+        # (4b) parents whose secret has leading zero bytes (master keys given directly): hardened and normal children
+        for st in others:
+            if st['kind'] == 'key' and st['k'].startswith('00'):
+                for call in (P(["0'"]), P(['0']), P(["2147483647h", '1']), CPRIV(5, True), CPRIV(5), CPUB(5)):
+                    add(st, [], call, ('leading-zero-parent', call['op'], len(call.get('elems', [0]))))
+        # (8) across the depth limit of the serialization: parents at depth 250..255 of long chains built once (mixed
+        #     hardened / normal levels; one chain leaves the private side early), children asked for privately and
+        #     publicly through every entry point; depth <= 255 derives on both sides and commutes, beyond is not compared
+        for ci, st in enumerate([main, others[0]]):
+            chain = []
+            for lvl in range(255):
+                goes_public = ci == 1 and lvl == 3
+                if goes_public:
+                    chain.append(PUBLIC)
+                hard = rng.random() < 0.4 and not (ci == 1 and lvl >= 3)
+                i = rng.choice([0, 1, 2 ** 31 - 1, rng.randrange(2 ** 31)])
+                step = P([str(i) + (rng.choice("'hH") if hard else '')], rng.choice(['m', '']))
+                if lvl < 250 and (thorough or lvl % 16 == 5):
+                    add(st, list(chain), step, ('long-chain-step', ci, hard))          # the chain itself, sampled
+                chain.append(step)
+            ops = [o for o in chain]
+            # position in `ops` of the key at depth d: d path steps (+1 for the PUBLIC op of chain 1 beyond level 3)
+
+            def upto(d, ops=ops, ci=ci):
+                return ops[:d + (1 if ci == 1 and d > 3 else 0)]
+            for d in (250, 252, 253, 254, 255):
+                pre = upto(d)
+                isprivate = ci == 0
+                i1, i2, i3 = rng.randrange(2 ** 31), rng.choice([0, 1, 2 ** 31 - 1]), rng.randrange(1000)
+                recvs = [(pre, 'priv'), (pre + [PUBLIC], 'pub')] if isprivate else [(pre, 'pub')]
+                for rp, pk in recvs:
+                    for root in ('m', 'M', ''):
+                        add(st, rp, P([str(i1)], root, False, *anyvar(st)), ('depth', d, pk, 'path', root, 1))
+                        add(st, rp, P([str(i2), str(i3)], root, rng.random() < 0.3), ('depth', d, pk, 'path', root, 2))
+                    add(st, rp, P([str(i3), str(i1), str(i2)]), ('depth', d, pk, 'path', 'm', 3))
+                    add(st, rp, CPUB(i1, *anyvar(st)), ('depth', d, pk, 'child_public'))
+                    add(st, rp, CPRIV(i1, None, *anyvar(st)), ('depth', d, pk, 'child_private'))
+                    if pk == 'priv':
+                        add(st, rp, P([str(i2) + "'"]), ('depth', d, pk, 'path-hardened'))
+                        add(st, rp, CPRIV(i2, True), ('depth', d, pk, 'child_private-hardened'))
+                        add(st, rp, P([str(i2) + "'", str(i3)], 'm'), ('depth', d, pk, 'path-hardened', 2))
+                if isprivate and d < 255:
+                    # the same child, privately and publicly: neither side may refuse, both give the same key
+                    for i in (i1, i2):
+                        a = pre + [CPRIV(i), PUBLIC]
+                        for b in (pre + [PUBLIC, CPUB(i)], pre + [CPUB(i)], pre + [P([str(i)], 'M')],
+                                  pre + [PUBLIC, P([str(i)], rng.choice(['m', 'M', '']))]):
+                            eqcases.append((st, a, b, ('commute-depth', d, b[-1]['op'], len(b) - len(pre))))
+                if d == 255:
+                    # serialization round trip of the deepest keys
+                    eqcases.append((st, pre, pre + [{'op': 'reimport'}], ('roundtrip', 255, 'own')))
+                    if isprivate:
+                        eqcases.append((st, pre + [PUBLIC], pre + [PUBLIC, {'op': 'reimport'}], ('roundtrip', 255, 'xpub')))
         # (6) API edge cases
         for st in [main, others[0]]:
             for i, h in [(0, False), (0, True), (2 ** 31 - 1, True), (2 ** 31, False), (2 ** 31, True), (2 ** 32 - 1, False),
@@ -476,7 +537,6 @@ def run(replay=None):
                 add(st, [PUBLIC], CPUB(i), ('api', 'child_public', i))
         # (7) every optional argument of every derivation entry point, given and omitted, positionally and by keyword,
         #     on private and public-only receivers: network (own / another network's name), hardened flag
-        eqcases = []
         for st in ([main, others[0], others[-1]] if thorough else [main, others[-1]]):
             for net, conv in variants(st):
                 tag = ('own' if net == st['net'] else 'other' if net else 'omitted', conv)
